@@ -2,6 +2,7 @@ package props
 
 import (
 	"fmt"
+	"go/constant"
 	"go/token"
 	"go/types"
 	"sort"
@@ -120,7 +121,37 @@ func helperGuards(fns []*ssa.Function) map[*ssa.Function]helperGuard {
 					}
 					c, ok := eng.EdgeCmp(b, edge)
 					if !ok {
-						continue
+						// the comparison behind a predicate of the module: exceedsLimit(n, limit)
+						if edge == 0 {
+							pcs := predicateTrueCmps(eng.BlockIf(b).Cond)
+							for _, pc := range pcs {
+								px, py, pop := pc.X, pc.Y, pc.Op
+								if pop == token.LSS {
+									px, py, pop = py, px, token.GTR
+								}
+								if pop == token.GTR && count[px] {
+									c, ok = pc, true
+									// whatever else the predicate requires may only be `limit >= 0` on that very
+									// limit: any other conjunct lets counts through that the property rejects
+									for _, oc := range pcs {
+										if oc == pc {
+											continue
+										}
+										ox, oy, oop := oc.X, oc.Y, oc.Op
+										if oop == token.LEQ {
+											ox, oy, oop = oy, ox, token.GEQ
+										}
+										z, isZ := eng.ConstInt(oy)
+										if !(oop == token.GEQ && isZ && z == 0 && eng.StripConv(ox) == eng.StripConv(py)) {
+											ok = false
+										}
+									}
+								}
+							}
+						}
+						if !ok {
+							continue
+						}
 					}
 					x, y, op := c.X, c.Y, c.Op
 					if op == token.LSS {
@@ -520,6 +551,9 @@ func c04(p *core.Program, r *core.Report) {
 					if prm, isP := eng.StripConv(o).(*ssa.Parameter); isP && prm.Name() == "stride" {
 						role = "coords"
 					}
+					if _, path, isF := fieldLoad(eng.StripConv(o)); isF && strings.HasSuffix(path, ".stride") {
+						role = "coords" // the reader's state bundled into a struct
+					}
 				}
 			}
 			for _, rf := range eng.Referrers(v) {
@@ -551,6 +585,25 @@ func c04(p *core.Program, r *core.Report) {
 			case 7:
 				return 1, "GeometryCollection parts"
 			}
+		}
+		// a case of Read moved into a function of its own: the one multi-part constructor it calls names the level
+		level, what, nctor := int64(-1), "unknown", 0
+		for _, c := range eng.Calls(fn) {
+			if o := eng.CalleeObj(c); o != nil && o.Pkg() != nil && o.Pkg().Path() == mod {
+				switch o.Name() {
+				case "NewMultiPoint":
+					level, what, nctor = 1, "MultiPoint parts", nctor+1
+				case "NewMultiLineString":
+					level, what, nctor = 2, "MultiLineString parts", nctor+1
+				case "NewMultiPolygon":
+					level, what, nctor = 3, "MultiPolygon parts", nctor+1
+				case "NewGeometryCollection":
+					level, what, nctor = 1, "GeometryCollection parts", nctor+1
+				}
+			}
+		}
+		if nctor == 1 {
+			return level, what
 		}
 		return -1, "unknown"
 	}
@@ -1119,7 +1172,7 @@ func naturalLoops(fn *ssa.Function) map[*ssa.BasicBlock]map[*ssa.BasicBlock]bool
 // outputIndexCoversLoopsRule (C03/C04): an element store into memory the function hands back is indexed by
 // something that moves with every loop around it.
 func outputIndexCoversLoopsRule(p *core.Program, r *core.Report, rule string) {
-	r.Rule(rule, "in the binary decoders (wkbcommon, wkb, ewkb) every element store `out[idx] = v` into a slice the function hands back (a slice parameter, or a slice that flows to a return) that sits inside loops has an index that depends on the induction state of each of those loops (a value defined by a phi of the loop's header, through arithmetic, conversions and inner phis): a store whose index ignores an enclosing loop is overwritten on every iteration of that loop, so decoded elements land on top of each other and the rest of the array keeps its zero fill", 2)
+	r.Rule(rule, "in the binary decoders (wkbcommon, wkb, ewkb) every element store `out[idx] = v` into a slice the function hands back (a slice parameter, or a slice that flows to a return) that sits inside loops has an index that depends on the induction state of each of those loops (a value defined by a phi of the loop's header, through arithmetic, conversions and inner phis): a store whose index ignores an enclosing loop is overwritten on every iteration of that loop, so decoded elements land on top of each other and the rest of the array keeps its zero fill", 1)
 	n := 0
 	for _, fn := range pkgFuncs(p, "encoding/wkbcommon", "encoding/wkb", "encoding/ewkb") {
 		if len(fn.Blocks) == 0 {
@@ -1262,4 +1315,95 @@ func dependsOnHeaderPhi(v ssa.Value, h *ssa.BasicBlock, seen map[ssa.Value]bool,
 		}
 	}
 	return false
+}
+
+// predicateTrueCmps: cond is a call of a small predicate function of the module; the comparisons between its
+// parameters (through conversions) or a parameter and a constant that hold whenever it returns true, rewritten over
+// the call's arguments. `func exceedsLimit(n uint32, limit int) bool { return limit >= 0 && uint64(n) > uint64(limit) }`
+// called as exceedsLimit(a, b) gives {b >= 0, a > b}.
+func predicateTrueCmps(cond ssa.Value) []eng.Cmp {
+	call, ok := cond.(*ssa.Call)
+	if !ok {
+		return nil
+	}
+	g := call.Call.StaticCallee()
+	if g == nil || !core.InModule(g) || len(g.Blocks) == 0 || len(g.Blocks) > 6 {
+		return nil
+	}
+	res := g.Signature.Results()
+	if res.Len() != 1 {
+		return nil
+	}
+	if bt, isB := res.At(0).Type().Underlying().(*types.Basic); !isB || bt.Kind() != types.Bool {
+		return nil
+	}
+	var ret *ssa.Return
+	for _, b := range g.Blocks {
+		if r, isR := b.Instrs[len(b.Instrs)-1].(*ssa.Return); isR {
+			if ret != nil {
+				return nil
+			}
+			ret = r
+		}
+	}
+	if ret == nil {
+		return nil
+	}
+	toArg := func(v ssa.Value) ssa.Value {
+		v = eng.StripConv(v)
+		if k, isK := v.(*ssa.Const); isK {
+			return k
+		}
+		for i, prm := range g.Params {
+			if v == ssa.Value(prm) && i < len(call.Call.Args) {
+				return call.Call.Args[i]
+			}
+		}
+		return nil
+	}
+	var out []eng.Cmp
+	add := func(c eng.Cmp) {
+		x, y := toArg(c.X), toArg(c.Y)
+		if x != nil && y != nil {
+			out = append(out, eng.Cmp{Op: c.Op, X: x, Y: y})
+		}
+	}
+	switch rv := ret.Results[0].(type) {
+	case *ssa.BinOp:
+		if c, _, okc := eng.AsCmp(rv); okc {
+			add(c)
+		}
+	case *ssa.Phi:
+		// a && b: false on the edges that skipped b, the comparison b on the edge that evaluated it
+		var live []int
+		for i, e := range rv.Edges {
+			if k, isK := e.(*ssa.Const); isK && k.Value != nil && k.Value.Kind() == constant.Bool && !constant.BoolVal(k.Value) {
+				continue
+			}
+			live = append(live, i)
+		}
+		if len(live) != 1 {
+			return nil
+		}
+		c, _, okc := eng.AsCmp(rv.Edges[live[0]])
+		if !okc {
+			return nil
+		}
+		add(c)
+		pred := rv.Block().Preds[live[0]]
+		for _, e := range mustEdgesTo(g, pred) {
+			if mc, okm := eng.EdgeCmp(g.Blocks[e[0]], e[1]); okm {
+				add(mc)
+			}
+		}
+		// the edge from pred into the phi's block itself
+		for si, sc := range pred.Succs {
+			if sc == rv.Block() && eng.BlockIf(pred) != nil {
+				if mc, okm := eng.EdgeCmp(pred, si); okm {
+					add(mc)
+				}
+			}
+		}
+	}
+	return out
 }
